@@ -84,7 +84,7 @@ def cases(draw):
                                     st.booleans(), st.one_of(st.none(), st.none(), sub)).map(list), min_size=1, max_size=3))
     if forced_reads:
         reads = forced_reads + reads[:1]
-    return {"threads": draw(st.sampled_from(["sync", "async"])), "fmt": draw(st.sampled_from(["sdmf", "mdmf", "mdmf"])), "k": k, "n": n, "servers": servers, "steps": steps, "reads": reads,
+    return {"hsalt": draw(st.integers(0, 15)), "threads": draw(st.sampled_from(["sync", "async"])), "fmt": draw(st.sampled_from(["sdmf", "mdmf", "mdmf"])), "k": k, "n": n, "servers": servers, "steps": steps, "reads": reads,
             "pad": draw(st.sampled_from([0, 0, 0, 4500 * k] if not forced_reads else [4500 * k, 4500 * k, 0]))}
 
 
